@@ -417,10 +417,10 @@ theorem taggedItem_good (c : Cfg e) {d : List Char → Option (Bool × (Ctx → 
   · intro d' s2 hpos2 hl2
     simp only [setTokenpos_bind]
     exact Good.pure (fun hpb => ⟨Nat.le_refl _, hp hpb⟩) hl2 (fun _ h => by cases h)
-theorem tsLoop_good (c : Cfg e) {d : List Char → Option (Bool × (Ctx → PM Gen))} (hd : GoodD F c d) (ctx : Ctx)
-    (lo : Nat) (lg : List Diag) : ∀ (fuel : Nat) (acc : List (TItem Gen)) (s : PState),
+theorem tsLoop_good (c : Cfg e) {d : List Char → Option (Bool × (Ctx → PM Gen))} (hd : GoodD F c d)
+    (rep : List Char → Bool) (ctx : Ctx) (lo : Nat) (lg : List Diag) : ∀ (fuel : Nat) (acc : List (TItem Gen)) (s : PState),
     (c.PB → lo ≤ s.pos ∧ s.pos ≤ e.toks.size) → (c.PB → e.toks.size - s.pos < fuel) → c.L lg s.log →
-    Good F c lo lg (tsLoop d ctx fuel acc e s) T
+    Good F c lo lg (tsLoop d rep ctx fuel acc e s) T
   | 0, _, s, _, hf, _ => ⟨trivial, fun hpb _ => by have := hf hpb; omega⟩
   | fuel + 1, acc, s, hp, hf, hl => by
     rw [tsLoop]
@@ -432,9 +432,11 @@ theorem tsLoop_good (c : Cfg e) {d : List Char → Option (Bool × (Ctx → PM G
       intro hpb; have := hp hpb; have := hpos hpb; omega
     | some it =>
       dsimp only
-      refine tsLoop_good c hd ctx lo lg fuel (it :: acc) s1 ?_ ?_ hl1
-      · intro hpb; have := hp hpb; have := hpos hpb; omega
-      · intro hpb; have := hp hpb; have := hpos hpb; have := hf hpb; have := hq hpb rfl; omega
+      split
+      · exact Good.fail (fun hpb => (hpos hpb).2) hl1
+      · refine tsLoop_good c hd rep ctx lo lg fuel (it :: acc) s1 ?_ ?_ hl1
+        · intro hpb; have := hp hpb; have := hpos hpb; omega
+        · intro hpb; have := hp hpb; have := hpos hpb; have := hf hpb; have := hq hpb rfl; omega
 
 mutual
 theorem itemP_good (c : Cfg e) (f32 : List Char → Option (List Char)) : ∀ (sp : Spec) (ctx : Ctx), GoodP F c (itemP f32 sp ctx)
@@ -495,7 +497,7 @@ theorem itemP_good (c : Cfg e) (f32 : List Char → Option (List Char)) : ∀ (s
     intro s hp
     rw [itemP]
     simp only [getEnv_bind]
-    refine Good.bind' (c.L_refl _) (tsLoop_good c (dispatch_good c f32 items) ctx s.pos s.log _ [] s
+    refine Good.bind' (c.L_refl _) (tsLoop_good c (dispatch_good c f32 items) _ ctx s.pos s.log _ [] s
       (fun hpb => ⟨Nat.le_refl _, hp hpb⟩) (fun _ => by omega) (c.L_refl _)) ?_
     intro vs s1 hpos hl _
     exact Good.pure hpos hl trivial
